@@ -10,7 +10,7 @@ import z3
 from .prog import Unsupported
 from .values import NONE, UNIT, Opaque, REnum, RMap, RSet, RStruct, RTuple, RVec, Ref, Union, b_and, b_not, b_or, err, key_of, ok, simp, some
 
-ABSENT, FILE, DIR = 0, 1, 2
+ABSENT, FILE, DIR, LINK = 0, 1, 2, 3     # LINK: symbolic link to a directory (target given by the scenario)
 
 Hinit = z3.BitVecVal(0x16f11fe89b0d677c, 64)
 Hstep = z3.Function('seahash_write', z3.BitVecSort(64), z3.BitVecSort(32), z3.BitVecSort(64))
@@ -25,7 +25,8 @@ def parent(p):
 
 
 class VfsWorld:
-    def __init__(self, paths, nchunks=1, state_files=(), always_dirs=('/',), cmds=()):
+    def __init__(self, paths, nchunks=1, state_files=(), always_dirs=('/',), cmds=(), links=None):
+        self.links = dict(links or {})       # link path -> directory it points to (the link exists iff its kind is LINK)
         self.paths = list(paths)
         self.nchunks = nchunks
         self.state_files = set(state_files)
@@ -67,7 +68,7 @@ class VfsWorld:
         for e in epochs:
             for p in self.paths:
                 k = self.sym_kind(e, p)
-                cs.append(z3.ULE(k, 2))
+                cs.append(z3.ULE(k, 3 if p in self.links else 2))
                 par = parent(p)
                 if par in self.paths:
                     cs.append(z3.Implies(k != ABSENT, self.sym_kind(e, par) == DIR))
@@ -77,7 +78,19 @@ class VfsWorld:
                     cs.append(k != FILE)      # assumption: nothing replaces the work directory by a regular file
         return cs
 
+    def through_link(self, p):
+        """(link, real path) if p lies strictly below a declared link path."""
+        for l, tgt in self.links.items():
+            if p.startswith(l.rstrip('/') + '/'):
+                return l, tgt.rstrip('/') + p[len(l.rstrip('/')):]
+        return None
+
     def kind(self, p):
+        tl = self.through_link(p)
+        if tl is not None:
+            l, real = tl
+            kl = self.kind(l)
+            return z3.If(kl == LINK, self.kind(real), z3.BitVecVal(ABSENT, 2))
         if p in self.always_dirs:
             return z3.BitVecVal(DIR, 2)
         o = self.over.get(p)
@@ -110,7 +123,7 @@ class VfsWorld:
         if method == 'is_file':
             return simp(k == FILE)
         if method == 'is_dir':
-            return simp(k == DIR)
+            return simp(z3.Or(k == DIR, k == LINK))      # follows the link (links point to directories here)
         if method in ('metadata', 'symlink_metadata'):
             if I.branch(simp(k == ABSENT)):
                 return err(Opaque('IoError', msg='not found', kind=REnum('ErrorKind', 'NotFound')))
@@ -160,7 +173,8 @@ class VfsWorld:
             return args[0]
         if last2 == 'fs::remove_file':
             path = I.deref(args[0])
-            I.effect('fs', op='remove_file', path=path)
+            tl = self.through_link(path)
+            I.effect('fs', op='remove_file', path=path, real=(tl[1] if tl else path))
             if I.branch(simp(self.kind(path) != FILE)):
                 return err(Opaque('IoError', msg='remove failed', kind=REnum('ErrorKind', 'NotFound')))
             self.over[path] = ('absent',)
@@ -280,13 +294,15 @@ class VfsWorld:
                     return 0
             if t == 'WalkDir':
                 if method in ('into_iter',):
-                    return Opaque('WalkIter', root=v.get('root'), filter=None)
-                if method in ('follow_links', 'min_depth', 'max_depth', 'sort_by_file_name', 'same_file_system'):
+                    return Opaque('WalkIter', root=v.get('root'), filter=None, follow=v.get('follow', False))
+                if method == 'follow_links':
+                    return Opaque('WalkDir', root=v.get('root'), filter=None, follow=I.deref(args[0]))
+                if method in ('min_depth', 'max_depth', 'sort_by_file_name', 'same_file_system', 'contents_first'):
                     raise Unsupported('WalkDir::%s changes the traversal contract' % method, node)
             if t == 'WalkIter':
                 if method == 'filter_entry':
-                    return Opaque('WalkIter', root=v.get('root'), filter=args[0])
-                items = self.walk(I, v.get('root'), v.get('filter'), node)
+                    return Opaque('WalkIter', root=v.get('root'), filter=args[0], follow=v.get('follow', False))
+                items = self.walk(I, v.get('root'), v.get('filter'), node, follow=v.get('follow', False))
                 return I.lib.m_iter(ref, I.lib.mk_iter(items), method, args, node)
             if t == 'DirEntry':
                 if method == 'file_name':
@@ -296,14 +312,18 @@ class VfsWorld:
                 if method == 'depth':
                     return v.get('depth')
                 if method == 'file_type':
-                    return Opaque('FileType', path=v.get('path'))
+                    return Opaque('FileType', path=v.get('path'), follow=v.get('follow', False))
                 if method == 'metadata':
                     return ok(Opaque('Metadata', path=v.get('path')))
             if t == 'FileType':
+                # DirEntry::file_type does not follow links unless the walk does
+                k = self.kind(v.get('path'))
                 if method == 'is_file':
-                    return simp(self.kind(v.get('path')) == FILE)
+                    return simp(k == FILE)
                 if method == 'is_dir':
-                    return simp(self.kind(v.get('path')) == DIR)
+                    return simp(z3.Or(k == DIR, z3.And(k == LINK, z3.BoolVal(bool(v.get('follow'))))))
+                if method == 'is_symlink':
+                    return simp(z3.And(k == LINK, z3.BoolVal(not v.get('follow'))))
             if t == 'Stream' and method in ('buffer_unordered', 'buffered', 'fuse'):
                 return v
             if t == 'Stream' and method == 'next':
@@ -322,7 +342,7 @@ class VfsWorld:
             return self.path_query(I, v, method, node)
         return NotImplemented
 
-    def walk(self, I, root, filt, node):
+    def walk(self, I, root, filt, node, follow=False):
         """walkdir contract: pre-order; the root is yielded first (depth 0) even when it is a file; a missing root
         yields one Err; filter_entry(false) on a directory prunes its subtree; symlinks are not followed."""
         items = []
@@ -331,8 +351,17 @@ class VfsWorld:
             return [(True, err(Opaque('WalkError', path=root)))]
         items.append((simp(rk == ABSENT), err(Opaque('WalkError', path=root))))
 
+        def children(p):
+            kids = sorted(c for c in self.paths if parent(c) == p)
+            tl = self.through_link(p)
+            real = tl[1] if tl else (self.links.get(p) if p in self.links else None)
+            if real is not None:
+                # p is (below) a link: its children are those of the directory it points to, named through the link
+                kids = sorted(p.rstrip('/') + c[len(real.rstrip('/')):] for c in self.paths if parent(c) == real)
+            return kids
+
         def rec(p, depth, guard):
-            e = Opaque('DirEntry', path=p, depth=depth)
+            e = Opaque('DirEntry', path=p, depth=depth, follow=follow)
             g = guard
             if filt is not None:
                 keep = I.deref(I.call_value(filt, [e], node))
@@ -341,9 +370,12 @@ class VfsWorld:
                 if keep is not True:
                     g = b_and(g, keep)
             items.append((g, ok(e)))
-            kids = sorted(c for c in self.paths if parent(c) == p)
-            for c in kids:
-                rec(c, depth + 1, b_and(g, simp(self.kind(p) == DIR), simp(self.kind(c) != ABSENT)))
+            descend = simp(self.kind(p) == DIR)
+            if p in self.links or self.through_link(p) is not None:
+                # walkdir follows a link only when asked to -- except for the root of the walk, which is always followed
+                descend = simp(z3.Or(self.kind(p) == DIR, z3.And(self.kind(p) == LINK, z3.BoolVal(bool(follow) or depth == 0))))
+            for c in children(p):
+                rec(c, depth + 1, b_and(g, descend, simp(self.kind(c) != ABSENT)))
         rec(root, 0, simp(rk != ABSENT))
         return items
 
